@@ -115,7 +115,7 @@ def ch_pure(ctx) -> Channel:
         "that has moved at least one loop from the origin; distinct by (layout, clock, request)"))
     rng = ctx.rng("liveindex")
     lines, recs = [], []
-    for _ in range(ctx.scale(220, 3000)):
+    for _ in range(ctx.scale(220, 15000)):
         lay = segpure.gen_layout(rng)
         E_us, depth = gen_live(rng, lay)
         now = segpure.START + datetime.timedelta(microseconds=E_us)
@@ -261,7 +261,7 @@ def ch_e2e(ctx) -> Channel:
     default_leeway = int(OptionsRepository.get_default_options().leeway)
     lines, recs = [], []
     with appboot.Clock("2023-01-01T00:00:00Z") as clock:
-        for stream, url, now, opts in e2e_cases(ctx, rng, ctx.scale(28, 200)):
+        for stream, url, now, opts in e2e_cases(ctx, rng, ctx.scale(28, 800)):
             trk = segchecks.tracks(app, stream)
             mpd, status, fetches = segchecks.walk_manifest(app, client, clock, stream, url, now, rng,
                                                            per_rep=ctx.scale(5, 12), want_init=True)
